@@ -114,7 +114,7 @@ type ent struct {
 	name string
 	isCh bool
 	e    waiter.Entry
-	ch   chan struct{}
+	ch   chan struct{} // the channel this entry allocated (named after it); the entry may later be re-created on another one
 	n    int64 // callback invocations (cumulative)
 	cur  int64 // invocations during the current operation (graph mode)
 	hook func(*ent)
@@ -282,6 +282,13 @@ func graph(path string) {
 				m := maskOf(vh.Strs(a[0]))
 				notifies++
 				f = func() { q.Notify(m) }
+			case "DoNewEntry":
+				// re-create the (unregistered) channel entry a[0] on the existing channel allocated by a[1]
+				x, c := ents[vh.Str(a[0])], ents[vh.Str(a[1])]
+				f = func() {
+					ne, _ := waiter.NewChannelEntry(c.ch)
+					x.e = ne
+				}
 			case "DoTake":
 				x := ents[vh.Str(a[0])]
 				takes++
@@ -387,7 +394,8 @@ func graph(path string) {
 
 type op struct {
 	Op   string
-	E    int      // entry index
+	E    int      // entry index (take: index of the entry that allocated the channel)
+	C    int      // new: index of the entry whose channel is reused
 	M    []string // mask
 	Spin int      // Gosched calls before the operation
 	Wait int      // microseconds slept before the operation (spreads the operations over the
@@ -441,6 +449,12 @@ func plan(r *rand.Rand, g, K int, names []string, wide bool) []op {
 			o.Wait = 1 + r.Intn(150)
 		}
 		x := r.Intn(100)
+		if owner && !registered && names[g][0] == 'h' && r.Intn(3) == 0 {
+			// NewChannelEntry on an existing (possibly shared, possibly non-empty) channel
+			o.Op, o.E, o.C = "new", g, chs[r.Intn(len(chs))]
+			out = append(out, o)
+			continue
+		}
 		switch {
 		case owner && (x < 45 || (k == 0 && x < 80)):
 			if registered {
@@ -566,6 +580,15 @@ func race(out string, seed int64, hists, Gmax, K int) {
 					}
 					for i := 0; i < o.Spin; i++ {
 						runtime.Gosched()
+					}
+					if o.Op == "new" {
+						ne, _ := waiter.NewChannelEntry(ents[o.C].ch)
+						ents[o.E].e = ne
+						tr.Log(map[string]interface{}{"ev": "new", "g": g, "e": names[o.E], "c": names[o.C]})
+						if G == 1 {
+							obs()
+						}
+						continue
 					}
 					ev := map[string]interface{}{"ev": "call", "g": g, "op": o.Op}
 					if o.Op != "notify" {
